@@ -112,18 +112,16 @@ type live struct {
 	bvMu      sync.Mutex
 	nBuilt    int
 
-	closed          bool
-	generation      int // store process generation (restarts)
-	tasksBusy       int
-	refreshes       int
-	cancellable     map[int]context.CancelFunc // in-flight explicit refreshes
-	refreshSeq      int
-	callTask        string
-	callInvokeStamp int64 // set while an explicit refresh's result is judged
-	coalesceFrom    int64 // requests before this stamp belong to an earlier process
-	epochSnap       map[string]bool
-	epochSnapAt     int64
-	lastRefresh     struct {
+	closed       bool
+	generation   int // store process generation (restarts)
+	tasksBusy    int
+	refreshes    int
+	cancellable  map[int]context.CancelFunc // in-flight explicit refreshes
+	refreshSeq   int
+	coalesceFrom int64 // requests before this stamp belong to an earlier process
+	epochSnap    map[string]bool
+	epochSnapAt  int64
+	lastRefresh  struct {
 		ok    bool
 		start int64
 		end   int64
@@ -395,7 +393,20 @@ func (l *live) construct() bool {
 	before := w.Svc.NumReqs()
 	w.Ticker = &FakeTicker{w: w, ch: make(chan time.Time)}
 	l.cfg.PollTicker = w.Ticker
+	readFault := l.o.CacheFaults && l.t.Bool(1, 5)
+	if readFault {
+		// the cache cannot be read at start-up (an I/O error): the store
+		// starts from the service, and must go on writing the cache
+		w.Cache.mu.Lock()
+		w.Cache.ReadErr = true
+		w.Cache.mu.Unlock()
+		l.prevDoc = map[string]uint32{}
+		l.installs = map[string][]inst{}
+	}
 	ok := w.Construct(l.cfg)
+	w.Cache.mu.Lock()
+	w.Cache.ReadErr = false
+	w.Cache.mu.Unlock()
 	w.Svc.Script, w.Svc.Default = saved, savedDef
 	if !ok {
 		return false
@@ -594,7 +605,7 @@ func (l *live) tick() {
 			return
 		}
 		// the poller logs errors; success is visible as a completed round
-		l.afterRound(known, start, w.StampNow(), nil, true)
+		l.afterRound(known, start, w.StampNow(), nil, true, "", 0)
 	}
 	pre := l.snapshotKnown()
 	if !w.Tick() {
@@ -644,15 +655,12 @@ func (l *live) refresh() {
 		w.callReturn()
 		l.tasksBusy--
 		w.Tracef("refresh returned %v", err)
-		l.callInvokeStamp = invoked
-		l.callTask = w.S.CurTask().Name
-		l.afterRound(known, epoch, w.StampNow(), err, false)
-		l.callInvokeStamp = 0
+		l.afterRound(known, epoch, w.StampNow(), err, false, w.S.CurTask().Name, invoked)
 	})
 }
 
 // afterRound judges a completed refresh call (C11).
-func (l *live) afterRound(knownAtStart map[string]bool, _ int64, end int64, err error, poller bool) {
+func (l *live) afterRound(knownAtStart map[string]bool, _ int64, end int64, err error, poller bool, callTask string, callInvoke int64) {
 	w := l.w
 	if poller {
 		// The poller swallows errors. A round it shared may have started
@@ -676,7 +684,7 @@ func (l *live) afterRound(knownAtStart map[string]bool, _ int64, end int64, err 
 	}
 	w.S.Probe("round-ok")
 	l.absorb()
-	if !poller && l.callInvokeStamp > 0 {
+	if !poller && callInvoke > 0 {
 		// "... and the cache holds the same": if the round this call waited
 		// for wrote the cache and that write failed, the call must not report
 		// success. (Only when no other round was active after the failed
@@ -687,8 +695,34 @@ func (l *live) afterRound(knownAtStart map[string]bool, _ int64, end int64, err 
 		for _, cw := range writes {
 			// the round this call itself led runs in a child goroutine of
 			// the calling task; its result is what the call returns
-			if cw.Err && cw.Stamp > l.callInvokeStamp && cw.Stamp < end && strings.HasPrefix(cw.Task, l.callTask+"/") {
+			if cw.Err && cw.Stamp > callInvoke && cw.Stamp < end && strings.HasPrefix(cw.Task, callTask+"/") {
 				l.fail("fresh", "Refresh returned nil although the cache write of the round it led failed (write at stamp %d by %s): the cache does not hold what the store now serves", cw.Stamp, cw.Task)
+			}
+		}
+	}
+	if l.o.Oracles["read-after-poll"] && !poller && callTask != "" {
+		// "once a poll has completed every later call returns its value or a
+		// newer one": what the round led by this call fetched must be what
+		// the handle now serves, unless something was installed later
+		for _, r := range w.Svc.ReqsSince(callInvoke) {
+			if !r.Cond || r.Served == 0 || !strings.HasPrefix(r.Task, callTask+"/") {
+				continue
+			}
+			h := l.handles[r.Name]
+			if h == nil {
+				continue
+			}
+			_, gv, ok := Decode(h.Get())
+			l.lastRead[r.Name] = l.storeNow()
+			l.readStamp[r.Name] = w.Stamp()
+			later := false
+			for _, in := range l.installs[r.Name] {
+				if in.stamp > r.End && in.version == gv {
+					later = true
+				}
+			}
+			if ok && gv != r.Served && !later {
+				l.fail("read-after-poll", "the poll led by this Refresh fetched version %d of %q and completed without error, but the handle serves version %d", r.Served, r.Name, gv)
 			}
 		}
 	}
@@ -885,8 +919,8 @@ func (l *live) checkDocComplete() {
 		return
 	}
 	for _, n := range SortedKeys(l.handles) {
-		if _, ok := l.prevDoc[n]; !ok && !l.droppedKeptHandle(n) {
-			l.fail("doc-complete", "nothing is in flight, the store has handed out a handle for %q, but the last cache document written does not hold it (document: %v)", n, SortedKeys(l.prevDoc))
+		if _, ok := l.prevDoc[n]; !ok {
+			l.fail("doc-complete", "nothing is in flight, the store has handed out a handle for %q (so it can never be dropped), but the last cache document written does not hold it (document: %v)", n, SortedKeys(l.prevDoc))
 		}
 	}
 }
@@ -1444,7 +1478,7 @@ func (l *live) finalConverge() {
 		l.fail("converge", "with a healthy service the final refresh did not succeed: done=%v err=%v", done, rerr)
 		return
 	}
-	l.afterRound(kn, 0, w.StampNow(), nil, false)
+	l.afterRound(kn, 0, w.StampNow(), nil, false, "", 0)
 	l.absorb()
 	for _, n := range SortedKeys(l.prevDoc) {
 		v := l.prevDoc[n]
@@ -1469,6 +1503,18 @@ func (l *live) finalConverge() {
 		}
 		l.lastRead[n] = l.storeNow()
 		l.readStamp[n] = w.Stamp()
+	}
+	if l.o.Updaters {
+		for _, us := range l.updaters {
+			if us.u == nil || len(us.active) > 0 {
+				continue
+			}
+			av, _ := w.Svc.Active(us.name)
+			got := us.u.Get()
+			if got != nil && got.version != av && !us.failOn[av] {
+				l.fail("upd-lost", "after a successful refresh with a healthy service, updater %d on %q still returns the value built from version %d; the service's active version is %d", us.id, us.name, got.version, av)
+			}
+		}
 	}
 	// every name the store knows is in the document
 	for _, n := range SortedKeys(l.handles) {
